@@ -1,4 +1,4 @@
-(* C44 (c): the jacobian of the orthotropic plane-stress class is the derivative of its residual (true once F24 is fixed) *)
+(* C44 (c): the jacobian of the orthotropic plane-stress class is the derivative of its residual (true once F-C44b is fixed) *)
 From Coq Require Import Reals List Lra Lia.
 Import ListNotations.
 From C44 Require Import C44PS_gen C44PSStatements C44ProofsPS.
